@@ -3,6 +3,7 @@
 # one slice: every check rebuilds exactly what it needs in its own proof / tie stage and reports a
 # failure there, so one slice that does not build cannot take the others down.
 cd "$(dirname "$0")"
+ROOT=$(pwd)
 export CARGO_NET_OFFLINE=true
 unset RUSTFLAGS CARGO_ENCODED_RUSTFLAGS CARGO_BUILD_RUSTFLAGS CARGO_TARGET_DIR CARGO_BUILD_TARGET_DIR
 mkdir -p work build evidence replays
@@ -14,6 +15,6 @@ for d in ocaml/c*/; do
 done
 (cd harness && timeout 3400 cargo build --offline --bins --keep-going >../work/setup-cargo.log 2>&1) || { [ $? = 124 ] && echo "setup: the harness build was CUT by its 3400 s time limit; the checks will finish it"; echo "setup: some harness binaries did not build (see work/setup-cargo.log):"; grep -E "^error" work/setup-cargo.log | head -20; }
 # C03 also ties the partition-key arithmetic with overflow checks off (second build of its runner)
-(cd harness && CARGO_PROFILE_DEV_OVERFLOW_CHECKS=false CARGO_TARGET_DIR=/verif/build/cargo-c03-nochk timeout 3400 cargo build --offline --bin c03 >../work/setup-cargo-c03-nochk.log 2>&1) || echo "setup: the unchecked C03 runner did not build (see work/setup-cargo-c03-nochk.log)"
+(cd harness && CARGO_PROFILE_DEV_OVERFLOW_CHECKS=false CARGO_TARGET_DIR="$ROOT/build/cargo-c03-nochk" timeout 3400 cargo build --offline --bin c03 >../work/setup-cargo-c03-nochk.log 2>&1) || echo "setup: the unchecked C03 runner did not build (see work/setup-cargo-c03-nochk.log)"
 echo setup done
 exit 0
